@@ -468,6 +468,8 @@ class Molecule(nx.Graph):
 
         # copy citations
         subgraph.citations = self.citations
+        # `nodes` is gone through more than once; it may be an iterator.
+        nodes = list(nodes)
         node_copies = [(node, copy.copy(self.nodes[node])) for node in nodes]
         subgraph.add_nodes_from(node_copies)
 
